@@ -208,6 +208,25 @@ theorem rvc_bc_imm8_partial {S P : Int} {data out : List Nat} (hlen : data.lengt
 
 example : Rvc.bcImm8 256 [0x01, 0xc0] 0 = .ok [1, 208] ∧ rvcBOffset (wordLE [1, 208]) = -256 := by decide
 
+/-- rvc linker relaxation (`CBImm11Relocation.can_shrink` = `CBlImm11Relocation.can_shrink`): EXACT fit — the 32-bit
+    `j`/`jal ra` is shrunk to `c.j`/`c.jal` iff both addresses are even and the displacement fits the signed 12-bit field -/
+theorem rvc_can_shrink_iff (S P : Int) :
+    Rvc.canShrink S P = .ok true ↔ (S % 2 = 0 ∧ P % 2 = 0 ∧ Spec.Bits.fitsS 12 (S - P)) := canShrink_true_iff S P
+
+/-- … and whenever it says yes, the shrunk instruction (`do_shrink`, C.J opcode 0b101 / C.JAL 0b001), relocated with
+    `bc_imm11` at the same addresses, is accepted and its field decodes to exactly `S - P` — full, no guard:
+    the relaxation path cannot reach `bc_imm11`'s too-wide acceptance region -/
+theorem rvc_shrink_resolves {opc : Nat} {S P : Int} {data d2 : List Nat} (hlen : data.length = 4)
+    (hb : ∀ b ∈ data, b < 256) (hopc : opc < 8) (hcan : Rvc.canShrink S P = .ok true)
+    (hsh : Rvc.doShrink opc S data P = .ok d2) :
+    ∃ out, Rvc.bcImm11 S d2 P = .ok out ∧ rvcJOffset (wordLE out) = S - P := by
+  obtain ⟨out, h1, h2⟩ := shrink_resolves hlen hb hopc hcan hsh
+  exact ⟨out, h1, by omega⟩
+
+example : Rvc.canShrink 2046 0 = .ok true ∧ Rvc.canShrink 2048 0 = .ok false ∧ Rvc.canShrink (-2048) 0 = .ok true
+    ∧ Rvc.canShrink (-2050) 0 = .ok false ∧ Rvc.canShrink 2998 0 = .ok false := by decide
+example : Rvc.doShrink 5 100 [0x6f, 0, 0, 0] 0 = .ok [0x6d, 0xa0] := by decide
+
 /-- riscv `abs32_imm20` + `abs32_imm12`: the pair computes `S mod 2^32` for EVERY `S` (no range check:
     an address ≥ 2^32 is silently truncated — finding), hence exactly `S` for a 32-bit address -/
 theorem riscv_abs32_pair_partial {S P P' : Int} {dhi dlo ohi olo : List Nat} (h1 : dhi.length = 4)
